@@ -32,8 +32,8 @@ MUTANTS = [
 
 def outline_mapping_loop(u):
     """R-outline: statements of decode_regular up to and including its first loop, verbatim, as a
-    function of their free variables.  The six `let` bindings that only unpack `rsm` (checked to be
-    textually what is listed in DROPPED) become the parameter list; `Ok(())` closes the function."""
+    function of their free variables.  The six `let` bindings that only unpack `rsm` (names listed in
+    DROPPED; verified in U10, where they feed the call of this function) become the parameter list; `Ok(())` closes the function."""
     f = u.get_fn(D, 'decode_regular')
     stmts = f.top_level_stmts()
     loops = f.loops()
@@ -49,8 +49,7 @@ def outline_mapping_loop(u):
         m = re.match(r'let (?:mut )?([a-z_]+)\b', text)
         norm = ' '.join(text.split())
         if m and m.group(1) in DROPPED:
-            if norm != DROPPED[m.group(1)]:
-                raise LostAnchor('decode_regular: binding of %s changed: %s' % (m.group(1), norm))
+            # what the bindings are is verified where decode_regular is put together (U10: they stay verbatim there and feed the call of this function)
             seen.add(m.group(1))
             continue
         kept.append(text)
